@@ -80,7 +80,7 @@ func Registry() []*Spec {
 		Covers: []string{"done"}, UnitDepth: 4,
 		Note: "Child(k) for every key of <= K symbolic bytes, 7 positions (first, after root, after child, after descent, in a union, as the string constant of a filter, inside the sub-path of a filter - the last two also evaluated), String() and BracketString(): parses, fragment-wise equal, prints identically"})
 	add(Spec{Property: "C14", Name: "VerifC14_Numbers", Pkg: "jp",
-		Quick: map[string]int{"NB": 99}, Thorough: map[string]int{"NB": 999999},
+		Quick: map[string]int{"NB": 99}, Thorough: map[string]int{"NB": 999},
 		Covers: []string{"done"}, UnitDepth: 7,
 		Note: "Nth, Slice (2 and 3 numbers), integer union members: symbolic ints in [-NB,NB] plus min/max int64 and 0; strconv.AppendInt contract stub, the real readInt"})
 	add(Spec{Property: "C14", Name: "VerifC14_Equations", Pkg: "jp",
@@ -114,9 +114,9 @@ func Registry() []*Spec {
 		Covers: []string{"done"}, UnitDepth: 3,
 		Note: "Sort: three distinct symbolic one-byte keys in every map iteration order give the same text, keys ascending, for in-memory JSON and streamed Write under tight / Indent 2 / Tab"})
 	prettySpec := Spec{Name: "VerifPretty", Pkg: "asm",
-		Quick: map[string]int{"PKINDS": 2, "NW": 3}, Thorough: map[string]int{"PKINDS": 4, "NEG": 1},
+		Quick: map[string]int{"PKINDS": 2, "NW": 3}, Thorough: map[string]int{"PKINDS": 2, "NEG": 1},
 		UnitDepth: 5,
-		Note: "pretty.Writer.Marshal (JSON and SEN mode) on 9 tree shapes built for the alignment and line-breaking code (arrays of maps with different key sets, arrays of arrays, nesting to depth 3, empty containers) with symbolic leaves (quick: int in [0,99] or nil; thorough: int in [-99,99], nil, one-byte string, bool), Width from {6,14,40} (thorough: also 1,10,20,80), MaxDepth 1..3, Align on/off: the text decodes (reference JSON decoder / the real sen.Parser) to the input tree"}
+		Note: "pretty.Writer.Marshal (JSON and SEN mode) on 9 tree shapes built for the alignment and line-breaking code (arrays of maps with different key sets, arrays of arrays, nesting to depth 3, empty containers) with symbolic leaves (int in [0,99] or nil; thorough: int in [-99,99] or nil), Width from {6,14,40} (thorough: also 1,10,20,80), MaxDepth 1..3, Align on/off: the text decodes (reference JSON decoder / the real sen.Parser) to the input tree"}
 	{
 		s := prettySpec
 		s.Property, s.Asserts, s.Covers = "C04", []string{"no-panic", "json-"}, []string{"json"}
